@@ -28,7 +28,7 @@ per worker step (termination under fair scheduling of workers with terminating b
 -- invariants that exclude every stuck state (`C05_no_lost_wakeup`, `C05_no_stranded_task`, `C05_no_deadlock`,
 -- `C05_cleanup_progress`) plus the fairness assumption; no temporal-logic theorem is claimed.
 -/
-import TboxModel.C05.StrandProofs
+import TboxModel.C05.WtProofs
 namespace Tbox.C05
 
 /-- reachable states of the repaired code with a configuration initialize() accepts -/
@@ -126,6 +126,9 @@ theorem cancelled_mono (s : State) (st : Step) (id : Nat) (h : id ∈ s.cancelle
 theorem nfEarly_mono (s : State) (st : Step) (id : Nat) (h : id ∈ s.nfEarly) : id ∈ (step s st).nfEarly := by
   cases st <;> simp only [step, afterPred] <;> (repeat' split) <;> simp_all
 
+theorem dropped_mono (s : State) (st : Step) (id : Nat) (h : id ∈ s.dropped) : id ∈ (step s st).dropped := by
+  cases st <;> simp only [step, afterPred] <;> (repeat' split) <;> simp_all
+
 theorem exec_mono {f : State → List Nat} (hm : ∀ s st id, id ∈ f s → id ∈ f (step s st))
     (s : State) (sts : List Step) (s' : State) (he : exec s sts = some s') (id : Nat) (h : id ∈ f s) : id ∈ f s' := by
   induction sts generalizing s with
@@ -176,6 +179,57 @@ theorem C05_status_consistent (c : Cfg) (hf : c.fixed) (hok : c.ok = true) (sts 
     have h' := (reach hf hok _ s' hall).task
     have hc' := exec_mono (f := State.nfEarly) nfEarly_mono s more s' he' id hid
     exact fun hr => (h'.ranExcl id hr).2.2 hc'
+
+/-- **cleanup began before it started ⇒ never executed**: every task that is still waiting (not yet popped) when
+cleanup()'s critical section runs — the section that sets the stop flag and drops the queue, step `cleanup1` — is
+never executed in any continuation, on any number of workers (WorkThread = `Cfg.workThread`: one worker). A worker
+that re-acquires the mutex after that section sees the flag before it looks at the queue (`afterPred`), and the
+queue is empty anyway. -/
+theorem C05_waiting_at_cleanup_never_runs (c : Cfg) (hf : c.fixed) (hok : c.ok = true) (sts more : List Step)
+    (s s' : State) (he : exec (init c) sts = some s) (hv : valid s .cleanup1 = true)
+    (he' : exec (step s .cleanup1) more = some s') : ∀ t ∈ s.undo, t.id ∉ s'.ranIds := by
+  intro t ht hr
+  have hall : exec (init c) (sts ++ .cleanup1 :: more) = some s' := by
+    rw [exec_append, he]; simp only [Option.bind, exec, hv, ↓reduceIte]; exact he'
+  have h := (reach hf hok _ s' hall).task
+  have hd : t.id ∈ (step s .cleanup1).dropped := by
+    simp only [step]; exact List.mem_append_left _ (List.mem_map.2 ⟨t, ht, rfl⟩)
+  exact (h.ranExcl t.id hr).2.1 (exec_mono (f := State.dropped) dropped_mono _ more s' he' t.id hd)
+
+/-- **cancel of a task that is executing** answers 2 and changes nothing (the task keeps running). -/
+theorem C05_cancel_running_noop (s : State) (id : Nat) (h : s.doing.contains id = true) :
+    cancelAns s id = 2 ∧ step s (.cancel id) = s := by
+  have : cancelAns s id = 2 := by unfold cancelAns; rw [h]; rfl
+  exact ⟨this, by simp only [step, this]⟩
+
+/-- **execute after cleanup** (cleanup() has returned): a null token, nothing is queued, no worker is created. -/
+theorem C05_execute_after_cleanup (s : State) (prio : Int) (cb : Bool) (h : s.done = true) :
+    step s (.execute prio cb) = s := by
+  simp [step, h]
+
+/-! ### WorkThread = the instance min = max = 1 -/
+
+/-- **the fixed-size instance (min = max; WorkThread: `Cfg.workThread`, one worker)**: no worker is ever created
+beyond the initial ones and no worker ever takes the voluntary-exit path — the worker loop is exactly
+WorkThread::threadProc and execute() is WorkThread::execute.  Hence every theorem of this file, instantiated at
+`Cfg.workThread` (it is `fixed` and `ok`, second component), is a theorem about WorkThread: a waiting task at cleanup
+never runs (`C05_waiting_at_cleanup_never_runs`), cancel of a waiting task (`C05_cancel_sound`) / of the running task
+(`C05_cancel_running_noop`), status in the pop→running window (`C05_status_consistent`), execute after cleanup
+(`C05_execute_after_cleanup`), the destructor (= cleanup: `C05_no_deadlock`, `C05_cleanup_joins_all`). -/
+theorem C05_workthread_instance :
+    (∀ (c : Cfg) (sts : List Step) (s : State), c.min = c.max → exec (init c) sts = some s →
+      s.nW = s.cfg.min ∧ ∀ w, (∀ b, s.pc w ≠ .exitVol b) ∧ s.pc w ≠ .leaving) ∧
+    (Cfg.workThread.fixed ∧ Cfg.workThread.ok = true ∧ Cfg.workThread.min = 1 ∧ Cfg.workThread.max = 1) := by
+  refine ⟨fun c sts s hm he => ?_, by decide⟩
+  have h := (WtInv.init c hm).exec sts s he
+  exact ⟨h.nw, h.pcs⟩
+
+/-- WorkThread: the worker is inside task 0 (the gate), tasks 1 and 2 are waiting, cleanup() runs; the gate finishes,
+the worker sees the stop flag, is joined; tasks 1 and 2 were dropped and never ran. -/
+example : (exec (init Cfg.workThread)
+    [.execute 0 false, .notifyOne none, .enter 0, .execute 0 true, .notifyOne none, .execute 0 false, .notifyOne none,
+     .cleanup1, .setStop, .notifyAll, .runBody 0, .postCb 0, .finish 0, .enter 0, .join 0, .cleanupRet]).map
+      (fun s => (s.ranIds, s.dropped, s.done, s.pc 0 == .exited)) = some ([0], [1, 2], true, true) := by decide
 
 /-! ### pick order -/
 
